@@ -274,8 +274,9 @@ namespace vh
     unsigned fault_mask;
     bool     small_only;     // C04: clamp everything so that size never exceeds N
     bool     verbose;
+    unsigned long long_n;   // C14: after the program, append this many elements one at a time to slot 0
     RunOptions () : probes (0), max_size (96), fault_mode (false), fault_k (0), fault_j (0),
-                    fault_mask (0), small_only (false), verbose (false) { }
+                    fault_mask (0), small_only (false), verbose (false), long_n (0) { }
   };
 
   // class flags of a finished run, used for non-triviality rules and histograms
@@ -333,9 +334,10 @@ namespace vh
     int                final_op_kind;
     std::vector<unsigned char> fault_labels;
     unsigned           noexcept_points; // C18: eligible points seen inside an op declared noexcept
+    unsigned long      long_reallocations, long_relocated;
     RunResult () : failed (false), failing_op (-1), digest (0), flags (0), steps (0), skipped (0),
                    fault_points (0), fault_fired (false), fault_fired_second (false), fault_label (-1),
-                   fault_nontrivial (false), strong_expected (false), final_op_kind (-1), noexcept_points (0) { }
+                   fault_nontrivial (false), strong_expected (false), final_op_kind (-1), noexcept_points (0), long_reallocations (0), long_relocated (0) { }
   };
 
   typedef void (*RunFn) (const Program&, const RunOptions&, RunResult&);
